@@ -3,6 +3,7 @@
 //! note: forward admission arithmetic (fee and CLTV) and the timing lemma over the extracted constants
 //! trusted: R15 (statement slicing): should_broadcast_holder_commitment_txn scans hash maps through a function-local macro_rules!; the unit extracts the go-on-chain test of scan_commitment! verbatim (both inequalities) as a function of (htlc, direction, height, preimage known); the scan itself is dropped and not claimed
 //! trusted: R15/R18 (deep slice + captures): should_broadcast_holder_commitment_txn: the statement computing htlc_outbound inside scan_commitment! and the second argument of the macro's three invocations (our commitment, the counterparty's current and previous commitment), combined into one function of (htlc, which kind of commitment)
+//! trusted: R15 (deep slice): should_broadcast_holder_commitment_txn: the early exit in front of the deadline scan (R6: `E.iter().find(|event| P).is_some()` as an index loop carrying P; the other disjuncts of the condition are captured as written); the monitor is a skeleton with the fields that describe what has been seen on chain
 //! plemma: C08 lemma_forward_race / lemma_on_chain_heights_close_the_race: with the extracted constants and the extracted on-chain test, a silent or last-moment downstream peer never costs the upstream HTLC
 //! trusted: R15 (statement slicing): create_recv_pending_htlc_info is ~150 lines over onion payload types; the unit extracts, on every run, its three consecutive acceptance tests (final CLTV vs onion, PaymentClaimBuffer, amount) with their conditions verbatim and checks them as one function of the variables they read; the rest of the function is dropped and not claimed
 //! trusted: assume_specification for Result::or_else (std definition)
@@ -299,6 +300,42 @@ pub struct HTLCOutputInCommitment { pub cltv_expiry: u32, pub offered: bool }
 //@with
     scan_commitment!(htlc_outputs.iter().map(|&(ref a, _)| a), true); } } if let Some(ref txid) = self.funding.prev_counterparty_commitment_txid
 //@end
+// the only case in which the deadlines are not looked at: a spend of the funding output is already in a block
+pub struct SpendTxid { pub id: u64 }
+pub enum MonOnchainEvent { FundingSpendConfirmation { on_local_output_csv: Option<u16> }, HTLCUpdate { id: u64 }, MaturingOutput { id: u64 }, Other }
+pub struct MonEventEntry { pub height: u32, pub event: MonOnchainEvent }
+pub struct DeadlineMonitor { pub funding_spend_confirmed: Option<SpendTxid>, pub funding_spend_seen: bool, pub holder_tx_signed: bool, pub alternative_funding_confirmed: Option<(SpendTxid, u32)>, pub onchain_events_awaiting_threshold_conf: Vec<MonEventEntry> }
+pub open spec fn funding_spend_in_a_block(m: &DeadlineMonitor) -> bool {
+    m.funding_spend_confirmed is Some || (exists|k: int| 0 <= k < m.onchain_events_awaiting_threshold_conf@.len() && (#[trigger] m.onchain_events_awaiting_threshold_conf@[k]).event is FundingSpendConfirmation)
+}
+impl DeadlineMonitor {
+//@extract lightning/src/chain/channelmonitor.rs :: impl ChannelMonitorImpl :: fn should_broadcast_holder_commitment_txn
+//@rw R4 *
+    OnchainEvent::
+//@with
+    MonOnchainEvent::
+//@slice R15
+    if $pre:seq self.onchain_events_awaiting_threshold_conf.iter().find(|event| $p:seq).is_some() { return None; }
+//@with
+    fn htlc_deadlines_are_not_looked_at(&self) -> bool {
+        // R6: `E.iter().find(|event| P).is_some()` as an index loop carrying P verbatim
+        let mut __found = false; let mut __i: usize = 0;
+        while __i < self.onchain_events_awaiting_threshold_conf.len()
+            invariant __i <= self.onchain_events_awaiting_threshold_conf@.len(), __found == (exists|k: int| 0 <= k < __i && (#[trigger] self.onchain_events_awaiting_threshold_conf@[k]).event is FundingSpendConfirmation),
+            decreases self.onchain_events_awaiting_threshold_conf@.len() - __i
+        { let event = &self.onchain_events_awaiting_threshold_conf[__i]; let __b: bool = $p; if __b { __found = true; } __i = __i + 1; }
+        if $pre __found { return true; }
+        false
+    }
+//@ret r
+//@ensures P C08 the-monitor-stops-watching-htlc-deadlines-only-once-a-spend-of-the-funding-output-is-in-a-block-and-in-no-other-state
+    r == funding_spend_in_a_block(self),
+//@mutant deadlines_ignored_while_a_splice_is_confirmed_but_not_locked
+    if self.funding_spend_confirmed.is_some() ||
+//@with
+    if self.funding_spend_confirmed.is_some() || self.alternative_funding_confirmed.is_some() ||
+//@end
+}
 // ---- what is actually offered downstream (deep R15 slice of ChannelManager::process_forward_htlcs: the first three arguments of the queue_add_htlc call) ----
 #[derive(Clone, Copy)] pub struct FwdPaymentHash(pub [u8; 32]);
 //@extract lightning/src/ln/channelmanager.rs :: impl ChannelManager :: fn process_forward_htlcs
